@@ -77,8 +77,9 @@ theorem unsplitGo_doc (c : Char) (hc : isSpace c = false) (keep : Bool) (doc : L
 
 theorem joinWith_ne (os : Char) (xs : List Str) : joinWith os xs = joinStr [os] xs := joinWith_eq_joinStr os xs
 
-/-- the value `strip_quotes` leaves: a value of at least two characters that begins and ends with the same quote
-    character loses them -/
+/-- the value `strip_quotes` leaves (`v[1:-1]` of the code): a non-empty value that begins and ends with the same quote
+    character loses its first and last character — a value that IS one lone quote character becomes empty; an empty
+    value stays empty -/
 def unquote (v : Str) : Str :=
   match v with
   | q :: _ => if (q = '"' ∨ q = '\'') ∧ v.getLast? = some q then (v.drop 1).dropLast else v
@@ -88,20 +89,20 @@ def optPairSq (sq : Bool) : OptItem → Str × Option Str
   | .flag k => (k, none)
   | .kv _ k _ v => (k, some (if sq then unquote v else v))
 
-/-- what a rendered option must look like: the separator between key and value occurs nowhere in a key, a key that
-    has a value is stripped, and with `strip_quotes` a value is not empty (see `optlist_empty_value_witness`) -/
-def OptItemOk (kv : Char) (sq : Bool) : OptItem → Prop
+/-- what a rendered option must look like: the separator between key and value occurs nowhere in a key, and a key that
+    has a value is stripped; the value is arbitrary (empty values included) -/
+def OptItemOk (kv : Char) : OptItem → Prop
   | .flag k => kv ∉ k
-  | .kv _ k _ v => kv ∉ k ∧ Stripped k ∧ isSpace kv = false ∧ (sq = true → v ≠ [])
+  | .kv _ k _ _ => kv ∉ k ∧ Stripped k ∧ isSpace kv = false
 
-theorem makeKv_render (kv : Char) (sq : Bool) (it : OptItem) (h : OptItemOk kv sq it) :
+theorem makeKv_render (kv : Char) (sq : Bool) (it : OptItem) (h : OptItemOk kv it) :
     makeKv (some [kv]) sq (renderOptItem kv it) = .ok (optPairSq sq it) := by
   cases it with
   | flag k =>
     simp only [OptItemOk] at h
     simp [makeKv, renderOptItem, splitFirst_char_miss kv k h, optPairSq]
   | kv a k b v =>
-    obtain ⟨hk, hs, hsp, hv⟩ := h
+    obtain ⟨hk, hs, hsp⟩ := h
     have hnot : kv ∉ spaces a ++ k ++ spaces b := by
       intro hm
       simp only [List.mem_append, spaces, List.mem_replicate] at hm
@@ -117,12 +118,12 @@ theorem makeKv_render (kv : Char) (sq : Bool) (it : OptItem) (h : OptItemOk kv s
     | false => simp [optPairSq]
     | true =>
       cases v with
-      | nil => exact absurd rfl (hv rfl)
+      | nil => simp [optPairSq, unquote]
       | cons q t =>
         simp only [if_true, optPairSq, unquote]
         split <;> rfl
 
-theorem mapM_makeKv (kv : Char) (sq : Bool) (items : List OptItem) (h : ∀ it ∈ items, OptItemOk kv sq it) :
+theorem mapM_makeKv (kv : Char) (sq : Bool) (items : List OptItem) (h : ∀ it ∈ items, OptItemOk kv it) :
     (items.map (renderOptItem kv)).mapM (makeKv (some [kv]) sq) = .ok (items.map (optPairSq sq)) := by
   induction items with
   | nil => rfl
